@@ -4,6 +4,7 @@ import Driver.Arm
 import Driver.Hist
 import Driver.Counter
 import Driver.Arms
+import Driver.AllocD
 namespace Driver
 
 def dispatch (line : String) : String :=
@@ -26,6 +27,8 @@ def dispatch (line : String) : String :=
       | "cnt" => handleCnt args obs
       | "cnthammer" => handleHammer args obs
       | "life" => handleLife args obs
+      | "alloc" => handleAlloc args obs
+      | "allocinstall" => handleAllocInstall args obs
       | "armrun" => handleArmRun args obs
       | "armcompile" => handleArmCompile args obs
       | _ => bad ("unknown-tag:" ++ tag)
